@@ -374,6 +374,10 @@ class ConfigManager:
                     "INSERT OR REPLACE INTO settings (key, value) VALUES ('current_environment_api_url', ?)",
                     (DEFAULT_ENVIRONMENT.api_url,),
                 )
+                # The active profile is stored by name only: clear it, as an
+                # environment switch does, or a same-named profile of the default
+                # environment would silently become active.
+                conn.execute("DELETE FROM settings WHERE key = 'current_profile'")
 
             conn.commit()
             return True
